@@ -183,11 +183,18 @@ static inline void c10_build(int fresh)
     __allocation_counter = c10_nlive;
 }
 
+/* with -DNF=k the number of free chunks is a constant of the run (parameter sweep k = 0..3: same states,
+ * smaller formulas) */
+#ifdef NF
+#define C10_FIX_NF(x) ((void)(x), (uint)(NF))
+#else
+#define C10_FIX_NF(x) (x)
+#endif
 /* generate the pre-state: the assumptions are exactly H1-H5 */
 #define C10_HEAP_STATE(n_, foarr, fsarr, brk_, fresh_, hasL_, Lo_, Ls_, nlive_)                                          \
     do {                                                                                                                 \
         __CPROVER_havoc_object(c10_arena_w);                                                                             \
-        c10_pre.n = (n_); c10_pre.brk = (brk_); c10_hasL = (hasL_) != 0; c10_Lo = (Lo_); c10_Ls = (Ls_); c10_nlive = (nlive_); \
+        c10_pre.n = C10_FIX_NF(n_); c10_pre.brk = (brk_); c10_hasL = (hasL_) != 0; c10_Lo = (Lo_); c10_Ls = (Ls_); c10_nlive = (nlive_); \
         __CPROVER_assume(c10_pre.n <= C10_NCHUNK);                                                                       \
         for (uint c10_i = 0; c10_i < C10_MAXN; c10_i++) {                                                                \
             c10_pre.fo[c10_i] = c10_i < C10_NCHUNK ? (foarr)[c10_i < C10_NCHUNK ? c10_i : 0] : 0;                        \
